@@ -352,28 +352,28 @@ type Evidence struct {
 
 // Partial is what one shard of a check reports to the coordinating process.
 type Partial struct {
-	Lines      []string               `json:"lines"`
-	Stdout     []string               `json:"stdout"`
-	NObl       int                    `json:"nobl"`
-	NDis       int                    `json:"ndis"`
-	NKnown     int                    `json:"nknown"`
-	Violations int                    `json:"violations"`
-	ByBackend  map[string]int         `json:"by_backend"`
-	SolverS    float64                `json:"solver_s"`
-	MaxQ       float64                `json:"max_q"`
-	Covers     int                    `json:"covers"`
-	Funcs      []string               `json:"funcs"`
-	Inlined    []string               `json:"inlined"`
-	Assumed    []string               `json:"assumed"`
-	OOS        []string               `json:"oos"`
-	Samples    []map[string]interface{} `json:"samples"`
-	Known      []string               `json:"known"`
-	Instances  int                    `json:"instances"`
-	Slow       []string               `json:"slow"`
-	HasDecl    bool                   `json:"has_decl"`
-	Min        int                    `json:"min"`
-	HasHook    bool                   `json:"has_hook"`
-	ContractErrs int                  `json:"contract_errs"`
+	Lines        []string                 `json:"lines"`
+	Stdout       []string                 `json:"stdout"`
+	NObl         int                      `json:"nobl"`
+	NDis         int                      `json:"ndis"`
+	NKnown       int                      `json:"nknown"`
+	Violations   int                      `json:"violations"`
+	ByBackend    map[string]int           `json:"by_backend"`
+	SolverS      float64                  `json:"solver_s"`
+	MaxQ         float64                  `json:"max_q"`
+	Covers       int                      `json:"covers"`
+	Funcs        []string                 `json:"funcs"`
+	Inlined      []string                 `json:"inlined"`
+	Assumed      []string                 `json:"assumed"`
+	OOS          []string                 `json:"oos"`
+	Samples      []map[string]interface{} `json:"samples"`
+	Known        []string                 `json:"known"`
+	Instances    int                      `json:"instances"`
+	Slow         []string                 `json:"slow"`
+	HasDecl      bool                     `json:"has_decl"`
+	Min          int                      `json:"min"`
+	HasHook      bool                     `json:"has_hook"`
+	ContractErrs int                      `json:"contract_errs"`
 }
 
 // runShard verifies the functions of one shard (index i of n, by position in the contract order) and classifies
@@ -393,7 +393,9 @@ func runShard(prop, repo, tier string, si, sn int) *Partial {
 		if !mine {
 			continue
 		}
+		t0 := time.Now()
 		r := verifyFunc(L, fc.Fn, fc)
+		r.ExecSecs = time.Since(t0).Seconds()
 		results = append(results, r)
 		for _, o := range r.Obligs {
 			if o.Props != nil && !hasProp(o.Props, prop) {
@@ -499,6 +501,9 @@ func runShard(prop, repo, tier string, si, sn int) *Partial {
 	inl := map[string]bool{}
 	asm := map[string]bool{}
 	for _, r := range results {
+		if r.ExecSecs > 3 {
+			P.Slow = append(P.Slow, fmt.Sprintf("%.2fs exec %s", r.ExecSecs, r.Key))
+		}
 		P.Funcs = append(P.Funcs, r.Key)
 		for _, x := range r.Inlined {
 			inl[x] = true
@@ -729,6 +734,7 @@ func propAssumptions(prop string, assumed []string) []string {
 		"distinct pointer/slice parameters of a verified function do not alias each other",
 		"append is modelled as producing a new backing array with the same contents (aliasing through spare capacity is not modelled)",
 		"allocation never fails",
+		"trusted simplifier: terms are normalised at construction (constant folding, linear normal form of sums) and byte-memory reads are resolved with unsigned interval reasoning and linear equalities taken from the path condition (govc/term.go, govc/bounds.go); not re-checked by the solvers",
 	}
 	for _, x := range assumed {
 		a = append(a, "assumed contract of external: "+x)
@@ -826,6 +832,7 @@ func cmdVerify(args []string) int {
 	repo := fs.String("repo", "/repo", "repository directory")
 	showAll := fs.Bool("a", false, "show proved obligations too")
 	dump := fs.Bool("smt", false, "dump SMT of failing obligations")
+	slowDir := fs.String("slowdir", "", "write the SMT scripts of obligations slower than 3 s to this directory")
 	if len(args) < 1 {
 		return 2
 	}
@@ -845,8 +852,11 @@ func cmdVerify(args []string) int {
 	sort.Slice(fns, func(i, j int) bool { return funcKey(fns[i]) < funcKey(fns[j]) })
 	for _, fn := range fns {
 		fc := L.Contracts.lookup(fn)
+		t0 := time.Now()
 		r := verifyFunc(L, fn, fc)
+		t1 := time.Now()
 		solveAll(r.Obligs, 10, "first")
+		fmt.Printf("   [exec %.1fs, solve %.1fs, %d raw obligations]\n", t1.Sub(t0).Seconds(), time.Since(t1).Seconds(), len(r.Obligs))
 		groups := groupObligs(r.Obligs)
 		np := 0
 		for _, g := range groups {
@@ -865,6 +875,19 @@ func cmdVerify(args []string) int {
 		}
 		if len(r.Inlined) > 0 {
 			fmt.Println("   inlined:", strings.Join(r.Inlined, ", "))
+		}
+		for _, g := range groups {
+			if *slowDir != "" {
+				for i, o := range g.Instances {
+					if o.Seconds > 3 {
+						os.MkdirAll(*slowDir, 0o755)
+						os.WriteFile(filepath.Join(*slowDir, fmt.Sprintf("%s_%d.smt2", strings.ReplaceAll(strings.TrimPrefix(g.Name, r.Key+"/"), "/", "_"), i)), []byte(Script(o.Hyps, o.Goal, nil)), 0o644)
+					}
+				}
+			}
+			if g.Status == "proved" && g.Seconds > 3 {
+				fmt.Printf("   slow %.1fs (%d instances) %s\n", g.Seconds, len(g.Instances), strings.TrimPrefix(g.Name, r.Key+"/"))
+			}
 		}
 		for _, g := range groups {
 			if g.Status != "proved" || *showAll {
